@@ -298,6 +298,26 @@ fn main() {
         }
         // "reuse": one LR parser instance for the whole input sequence of the case
         if case.get("reuse").and_then(|x| x.as_bool()) == Some(true) && lr_runnable {
+            if resume.is_some() {
+                // the process died inside this session: every input of it is recorded as a crash
+                for inp in inputs.iter() {
+                    let text = inp["text"].as_str().unwrap();
+                    let mut h = dynparser::panic_json("process aborted (stack overflow?)");
+                    h["k"] = json!("crash");
+                    let out = json!({
+                        "id": id, "iid": inp.get("iid").cloned().unwrap_or(json!(0)),
+                        "g": gref, "g2": 0, "algo": cfg.algo, "partial": cfg.partial,
+                        "bytes": text.bytes().map(|b| json!(b)).collect::<Vec<_>>(),
+                        "lex": inp.get("lex").cloned().unwrap_or(json!([])),
+                        "lat": json!([]),
+                        "meta": inp.get("meta").cloned().unwrap_or(json!({})),
+                        "res": h, "ev": json!([]), "tree": dynparser::empty_tree(),
+                        "gres": dynparser::none_json(), "forest": dynparser::no_forest(),
+                    });
+                    writeln!(traces, "{}", out).unwrap();
+                }
+                continue;
+            }
             let (lm, go, skip_ws, partial) = (cfg.lm, cfg.go, cfg.skip_ws, cfg.partial);
             let texts: Vec<&'static str> = inputs
                 .iter()
@@ -306,6 +326,28 @@ fn main() {
             let (tx, rx) = mpsc::channel();
             let texts2 = texts.clone();
             progress(ci, 0, "lr");
+            // the GLR parser of the same grammar, reused over the same sequence (C07 on histories)
+            let grx = gdef.clone().map(|(gd, gr, gc, gi)| {
+                let (gtx, grx) = mpsc::channel();
+                let texts3 = texts.clone();
+                let (glm, ggo, gskip) = (gc.lm, gc.go, gc.skip_ws);
+                std::thread::Builder::new()
+                    .stack_size(256 << 20)
+                    .spawn(move || {
+                        gd.install(glm, ggo);
+                        let mut session = dynparser::GlrSession::new(gd, gr, partial, gskip, max_trees);
+                        for t in texts3 {
+                            let r = std::panic::catch_unwind(std::panic::AssertUnwindSafe(|| session.parse(t)));
+                            let poisoned = r.is_err();
+                            let _ = gtx.send(r.map_err(|p| vharness::panic_message(p)));
+                            if poisoned {
+                                session = dynparser::GlrSession::new(gd, gr, partial, gskip, max_trees);
+                            }
+                        }
+                    })
+                    .unwrap();
+                (grx, gi)
+            });
             std::thread::Builder::new()
                 .stack_size(256 << 20)
                 .spawn(move || {
@@ -332,15 +374,29 @@ fn main() {
                     }
                 };
                 let text = texts[ii];
+                let mut hung = hung;
+                let (gres, forest, g2) = match &grx {
+                    Some((grx, gi)) if !hung => match grx.recv_timeout(Duration::from_millis(timeout_ms)) {
+                        Ok(Ok((a, b))) => (a, b, *gi),
+                        Ok(Err(p)) => (dynparser::panic_json(&p), dynparser::no_forest(), *gi),
+                        Err(_) => {
+                            hung = true;
+                            let mut h = dynparser::panic_json("timeout");
+                            h["k"] = json!("hang");
+                            (h, dynparser::no_forest(), *gi)
+                        }
+                    },
+                    _ => (dynparser::none_json(), dynparser::no_forest(), 0),
+                };
                 let out = json!({
                     "id": id, "iid": inp.get("iid").cloned().unwrap_or(json!(0)),
-                    "g": gref, "g2": 0, "algo": cfg.algo, "partial": partial,
+                    "g": gref, "g2": g2, "algo": cfg.algo, "partial": partial,
                     "bytes": text.bytes().map(|b| json!(b)).collect::<Vec<_>>(),
                     "lex": inp.get("lex").cloned().unwrap_or(json!([])),
                     "lat": json!([]),
                     "meta": inp.get("meta").cloned().unwrap_or(json!({})),
                     "res": res, "ev": ev, "tree": tree,
-                    "gres": dynparser::none_json(), "forest": dynparser::no_forest(),
+                    "gres": gres, "forest": forest,
                 });
                 writeln!(traces, "{}", out).unwrap();
                 if hung {
